@@ -29,3 +29,35 @@ Example C27_example :
   snd (run init ops) = [Ok true; Ok true; Exc NamerErr; Ok true; Exc NamerErr; Ok true; Exc NamerErr]
   /\ abn (final ops) = [(1, 30)]%N /\ nba (final ops) = [(30, 1)]%N.
 Proof. vm_compute. repeat split. Qed.
+
+(* The constructor Namer(entries=[(name, addr); ...]) is part of the histories: an object it returns, driven
+   by any further operations, has inverse maps ... *)
+Theorem C27_constructed_inverse : forall entries s0 ops n a,
+  construct init entries = Ok s0 ->
+  (get (abn (fst (run s0 ops))) n = Some a <-> get (nba (fst (run s0 ops))) a = Some n).
+Proof. intros entries s0 ops n a E. exact (constructed_run_inv entries ops s0 E n a). Qed.
+Print Assumptions C27_constructed_inverse.
+
+(* ... it is exactly "add the entries one by one", raising at the first rejected one ... *)
+Theorem C27_constructor_is_adds : forall entries s,
+  construct s entries =
+  let (s', rs) := run s (map (fun e => Add (fst e) (snd e)) entries) in
+  match find (fun r => match r with Exc _ => true | Ok _ => false end) rs with
+  | Some (Exc k) => Exc k
+  | _ => Ok s'
+  end.
+Proof. exact construct_as_run. Qed.
+Print Assumptions C27_constructor_is_adds.
+
+(* ... and an entry whose address is already held by another name is rejected (the conflict that a bulk load
+   written without addNameAddr would miss). *)
+Theorem C27_add_conflicting_address_rejected : forall s n a n0,
+  falsy n = false -> falsy a = false -> get (abn s) n = None -> get (nba s) a = Some n0 -> n0 <> n ->
+  exists k, snd (add s n a) = Exc k.
+Proof. exact add_conflict_addr. Qed.
+Print Assumptions C27_add_conflicting_address_rejected.
+
+Example C27_constructor_example :
+  construct init [(1, 1); (2, 1)]%N = Exc NamerErr /\
+  exists s, construct init [(1, 1); (2, 2); (1, 1)]%N = Ok s /\ get (nba s) 2%N = Some 2%N.
+Proof. split; [reflexivity|]. eexists. split; reflexivity. Qed.
